@@ -4,6 +4,7 @@
 package thriftw
 
 import (
+	"bytes"
 	"fmt"
 	"testing"
 
@@ -131,3 +132,42 @@ func TestC06ThriftKnownProbes(t *testing.T) {
 }
 
 func TestC06ThriftTruncationSweep(t *testing.T) { vt.RunTruncationSweep(t, specThriftBinary()) }
+
+// TestC12ThriftUnregistered: the thrift binary protocol carries the pipe in a header; a frame
+// whose pipe names an unregistered filter is refused (C12, thrift part).
+func TestC12ThriftUnregistered(t *testing.T) {
+	rec := vt.NewRec(t, "C12", "thrift/unregistered", "a thrift-binary frame packed with the one-filter pipe [gzip] whose Tp-XferPipe header value is replaced, in the frame bytes, by a generated unregistered id; oracle: Unpack errors instead of delivering the still-filtered body; every case non-trivial; distinct by id")
+	rapid.Check(t, func(t *rapid.T) {
+		vt.Init()
+		bad := vt.UnregisteredXfer(t, "bad")
+		rec.Case(fmt.Sprintf("%d", bad), true)
+		if rec.WantSample() {
+			rec.Sample(map[string]interface{}{"unregistered": bad})
+		}
+		m := vt.Msg{Seq: 7, Mtype: 1, Method: "/m", Body: []byte("payload payload payload"), Codec: 's', Pipe: []byte{vt.XGzip5}}
+		w := &vt.RW{}
+		if err := thriftproto.NewBinaryProtoFunc()(w).Pack(m.Build()); err != nil {
+			t.Fatalf("Pack: %v", err)
+		}
+		f := append([]byte(nil), w.Written()...)
+		key := []byte("Tp-XferPipe")
+		i := bytes.Index(f, key)
+		if i < 0 || i+len(key)+2 > len(f) || f[i+len(key)] != 1 || f[i+len(key)+1] != vt.XGzip5 {
+			t.Fatalf("harness: cannot locate the pipe header value in the frame %x", f)
+		}
+		f[i+len(key)+1] = bad
+		r := vt.NewReceiver()
+		var err error
+		func() {
+			defer func() {
+				if p := recover(); p != nil {
+					err = fmt.Errorf("panic: %v", p)
+				}
+			}()
+			err = thriftproto.NewBinaryProtoFunc()(&vt.RW{In: f}).Unpack(r)
+		}()
+		if err == nil {
+			t.Fatalf("thrift-binary: a frame naming the unregistered filter %d was accepted (delivered body %q)", bad, vt.BodyBytes(r))
+		}
+	})
+}
